@@ -92,9 +92,9 @@ func runFree(j freeJob) string {
 		return "SESSION: " + err.Error()
 	}
 	defer s.Close()
-	expr := fmt.Sprintf(`"in.bin" | open | decode(%q) | (dv, (tovalue|tojson))`, j.Format)
+	expr := fmt.Sprintf(`"in.bin" | open | decode(%q) | (dv, (tovalue({bits_format: "snippet"})|tojson))`, j.Format)
 	if j.Format == "probe" {
-		expr = `"in.bin" | open | decode | (dv, (tovalue|tojson))`
+		expr = `"in.bin" | open | decode | (dv, (tovalue({bits_format: "snippet"})|tojson))`
 	}
 	outs, err := s.Eval(nil, expr)
 	var sb strings.Builder
